@@ -8,7 +8,7 @@ def ipcbed():
     return build.harness("ipcbed", "asan", ["ipcbed_main.c", "ipcbed_server.c", "vp.c", "vpguard.c"], wraps=["random", "srand", "mmap", "munmap"])
 
 
-STAGE_LIST = [simple.Stage("c04", ipcbed, ["--mode", "c04"], quick=320, thorough=20000, timeout=1200, chunk=2)]
+STAGE_LIST = [simple.Stage("c04", ipcbed, ["--mode", "c04"], quick=320, thorough=8000, timeout=1200, chunk=2)]
 STAGES = {s.name: s.builder for s in STAGE_LIST}
 RULE = ("one case = one asan server process with random lifecycle actions inside every callback (refuse in accept, "
         "disconnect in created/msg, events, extra references released by a later timer, closed returning non-zero 0-3 "
